@@ -25,13 +25,15 @@ const (
 func (r Result) String() string { return [...]string{"unknown", "sat", "unsat"}[r] }
 
 type Stats struct {
-	Queries  int
-	Sat      int
-	Unsat    int
-	Unknown  int
-	Errors   int
-	Time     time.Duration
-	MaxQuery time.Duration
+	Queries    int
+	Sat        int
+	Unsat      int
+	Unknown    int
+	Errors     int
+	Time       time.Duration
+	MaxQuery   time.Duration
+	ValuesTime time.Duration
+	SendTime   time.Duration
 }
 
 type Solver struct {
@@ -121,6 +123,8 @@ func (s *Solver) send(line string) {
 	if s.Dead {
 		return
 	}
+	t0 := time.Now()
+	defer func() { s.Stats.SendTime += time.Since(t0) }()
 	if s.Log != nil {
 		fmt.Fprintln(s.Log, line)
 	}
@@ -129,6 +133,9 @@ func (s *Solver) send(line string) {
 }
 
 func (s *Solver) Depth() int { return s.depth }
+
+// NumDefined is the number of live declarations and definitions.
+func (s *Solver) NumDefined() int { return len(s.defined) }
 
 func (s *Solver) Push() {
 	s.send("(push 1)")
@@ -337,6 +344,8 @@ func (s *Solver) CheckWith(extra ...*term.Term) Result {
 // Values returns the model values of the given terms (after a Sat answer,
 // before any pop).
 func (s *Solver) Values(ts []*term.Term) (map[*term.Term]uint64, error) {
+	t0 := time.Now()
+	defer func() { s.Stats.ValuesTime += time.Since(t0) }()
 	out := map[*term.Term]uint64{}
 	if len(ts) == 0 {
 		return out, nil
